@@ -357,6 +357,30 @@ class SymInterp:
                 raise Undecided("append on a non-list")
             p.env[st.value.func.value.id] = lst + [self.ev(st.value.args[0], p)]
             return [p]
+        if isinstance(st, ast.Expr) and isinstance(st.value, ast.Call) and isinstance(st.value.func, ast.Attribute) \
+                and isinstance(st.value.func.value, ast.Name) and st.value.func.attr in ("insert", "reverse", "extend") and not st.value.keywords:
+            nm, a = st.value.func.value.id, st.value.args
+            lst = p.env.get(nm)
+            if not isinstance(lst, list):
+                raise Undecided("%s on a non-list" % st.value.func.attr)
+            if st.value.func.attr == "reverse" and not a:
+                p.env[nm] = list(reversed(lst))
+                return [p]
+            if st.value.func.attr == "extend" and len(a) == 1:
+                more = self.ev(a[0], p)
+                if not isinstance(more, (tuple, list)):
+                    raise Undecided("extend by a non-sequence")
+                p.env[nm] = lst + list(more)
+                return [p]
+            if st.value.func.attr == "insert" and len(a) == 2:
+                at = self.ev(a[0], p)
+                c = at.as_const() if isinstance(at, Poly) else None
+                if c is None or c.denominator != 1:
+                    raise Undecided("insert at a symbolic position")
+                new = list(lst)
+                new.insert(int(c), self.ev(a[1], p))
+                p.env[nm] = new
+                return [p]
         if isinstance(st, ast.For):
             it = self.ev(st.iter, p)
             if not isinstance(it, (tuple, list)):
